@@ -1,6 +1,6 @@
 (* C05 -- proofs about Model/VerdictModel.v over the regenerated Gen/GenVerdict.v and
    Gen/GenSolveDispatch.v. *)
-From Coq Require Import ZArith List Bool String Ascii Lia Permutation.
+From Coq Require Import ZArith List Bool String Ascii Lia ZifyBool Permutation.
 From HV Require Import Spec.VerdictSpec Gen.GenVerdict Gen.GenSolveDispatch Model.VerdictModel.
 Import ListNotations.
 Local Open Scope nat_scope.
@@ -83,6 +83,12 @@ Proof. intros. unfold verdict_of, counter. rewrite !H. reflexivity. Qed.
 
 (* ------------------------------------------------------------------ the chain *)
 
+(* case analysis on every guard of the generated chain, whatever comparison it is written with *)
+Ltac split_ifs :=
+  repeat match goal with
+         | |- context [if ?b then _ else _] => let E := fresh "E" in destruct b eqn:E
+         end.
+
 Lemma chain_cases : forall ns nu nk ne nst nn : Z,
   (0 <= ns -> 0 <= ne -> 0 <= nk -> 0 <= nst -> 0 <= nn ->
    let v := verdict_chain ns nu nk ne nst nn in
@@ -94,35 +100,28 @@ Lemma chain_cases : forall ns nu nk ne nst nn : Z,
    (ns = 0 -> ne = 0 -> nk = 0 -> nst = 0 -> 0 < nn -> v = (LPass, EX_PASS)))%Z.
 Proof.
   intros ns nu nk ne nst nn Hs He Hk Hst Hn. cbv zeta. unfold verdict_chain.
-  destruct (Z.gtb ns 0) eqn:E1; destruct (Z.gtb ne 0) eqn:E2; destruct (Z.gtb nk 0) eqn:E3;
-    destruct (Z.gtb nst 0) eqn:E4; destruct (Z.eqb nn 0) eqn:E5;
-    rewrite ?Z.gtb_lt, ?Z.eqb_eq, ?Z.eqb_neq in *;
-    repeat split; intros; try reflexivity; try lia;
-    rewrite Z.gtb_ltb, Z.ltb_ge in *; try lia.
+  repeat split; intros; split_ifs; try reflexivity; exfalso; lia.
+Qed.
+
+Lemma chain_sat : forall ns nu nk ne nst nn : Z,
+  (0 <= ns -> 0 <= ne -> 0 <= nk -> 0 <= nst -> 0 <= nn -> 0 < ns ->
+   verdict_chain ns nu nk ne nst nn = (LFail, EX_COUNTEREXAMPLE))%Z.
+Proof.
+  intros ns nu nk ne nst nn Hs He Hk Hst Hn H.
+  exact (proj1 (chain_cases ns nu nk ne nst nn Hs He Hk Hst Hn) H).
 Qed.
 
 (* label and numeric code agree on what "passed" means, for every input of the chain *)
 Lemma chain_label_code : forall ns nu nk ne nst nn,
   fst (verdict_chain ns nu nk ne nst nn) = LPass <-> snd (verdict_chain ns nu nk ne nst nn) = EX_PASS.
 Proof.
-  intros. unfold verdict_chain.
-  destruct (Z.gtb ns 0); [split; discriminate |].
-  destruct (Z.gtb ne 0); [split; discriminate |].
-  destruct (Z.gtb nk 0); [split; discriminate |].
-  destruct (Z.gtb nst 0); [split; discriminate |].
-  destruct (Z.eqb nn 0); [split; discriminate |].
-  split; reflexivity.
+  intros. unfold verdict_chain. split_ifs; cbn [fst snd]; split; intros X; try discriminate X; reflexivity.
 Qed.
 
 Lemma chain_code_passed : forall ns nu nk ne nst nn,
   test_passed (snd (verdict_chain ns nu nk ne nst nn)) = label_eqb (fst (verdict_chain ns nu nk ne nst nn)) LPass.
 Proof.
-  intros. unfold verdict_chain.
-  destruct (Z.gtb ns 0); [reflexivity |].
-  destruct (Z.gtb ne 0); [reflexivity |].
-  destruct (Z.gtb nk 0); [reflexivity |].
-  destruct (Z.gtb nst 0); [reflexivity |].
-  destruct (Z.eqb nn 0); reflexivity.
+  intros. unfold verdict_chain. split_ifs; reflexivity.
 Qed.
 
 (* ------------------------------------------------------------------ model verdict vs specification *)
@@ -370,9 +369,7 @@ Proof.
   intros outs ns nn v H. unfold verdict_of.
   assert (P : 0 < cnt (fun a => String.eqb (key_of a) "sat") outs).
   { apply cnt_pos. apply existsb_exists. exists (Sat v). split; [assumption | reflexivity]. }
-  unfold counter at 1. unfold verdict_chain.
-  destruct (Z.gtb (Z.of_nat (cnt (fun a => String.eqb (key_of a) "sat") outs)) 0) eqn:E; [reflexivity |].
-  rewrite Z.gtb_ltb, Z.ltb_ge in E. lia.
+  unfold counter. apply chain_sat; lia.
 Qed.
 
 Lemma spec_fail_of_sat : forall ps p v, In p ps -> potential p = true -> ans p = Sat v -> spec_verdict ps = LFail.
@@ -401,8 +398,7 @@ Proof.
       set (cs := pot_cnt is_sat ps) in *.
       assert (0 < cs).
       { unfold cs, pot_cnt. apply cnt_pos. apply existsb_exists. exists p. rewrite Hp, Ha. auto. }
-      unfold verdict_chain. destruct (Z.gtb (Z.of_nat cs) 0) eqn:E; [reflexivity |].
-      rewrite Z.gtb_ltb, Z.ltb_ge in E. lia.
+      symmetry. apply chain_sat; lia.
     + destruct (Icount eq_refl) as (C1 & C2 & C3). pose proof (Idone eq_refl eq_refl) as TD.
       rewrite TD in C2, C3. setoid_rewrite TD in C1.
       unfold model_verdict. rewrite stuck_count_eq, normal_count_eq.
